@@ -21,8 +21,8 @@ def sh(cmd, cwd=None, env=None, timeout=3000):
     return p.returncode, p.stdout.decode('utf8', 'replace')
 
 
-def confirm(prop, k):
-    src = '/tmp/seedwork/%s/out/%s' % (prop, k)
+def confirm(prop, k, outdir='out', name=None):
+    src = '/tmp/seedwork/%s/%s/%s' % (prop, outdir, k)
     wt = '/tmp/seedwork/%s/wt' % prop
     env = dict(os.environ, PYTHONPATH=wt, PYTHONDONTWRITEBYTECODE='1')
     sh('git checkout -- . && git clean -fdq', cwd=wt)
@@ -43,7 +43,7 @@ def confirm(prop, k):
     if not ok:
         print('NOT CONFIRMED', out0[-500:], out1[-500:], outt[-500:])
         return False
-    dst = os.path.join(ROOT, 'seeded', '%s-%s' % (prop, k))
+    dst = os.path.join(ROOT, 'seeded', '%s-%s' % (prop, name or k))
     os.makedirs(dst, exist_ok=True)
     for f in ('patch.diff', 'demo.py', 'notes.md'):
         if os.path.exists(os.path.join(src, f)):
@@ -96,6 +96,7 @@ def detect(name, tier='quick', props=None):
 
 if __name__ == '__main__':
     if sys.argv[1] == 'confirm':
-        sys.exit(0 if confirm(sys.argv[2], sys.argv[3]) else 1)
+        # confirm <Cnn> <k> [outdir] [name]   e.g. confirm C05 1 out2 3  -> seeded/C05-3
+        sys.exit(0 if confirm(*sys.argv[2:6]) else 1)
     elif sys.argv[1] == 'detect':
         detect(sys.argv[2], sys.argv[3] if len(sys.argv) > 3 else 'quick', sys.argv[4:] or None)
